@@ -220,6 +220,9 @@ def gen(seed, run, sub="pipe", tier="quick"):
             ops += [["disconnect", True], ["connect"], ["settle"]]
         ops.append(["write", i])
     ops.append(["disconnect", True])
+    sched = common.gen_sched(r, "%s/%s/c18" % (seed, run), est_steps=300 + 250 * n)
+    if any(f["k"] == "burst" for f in faults):
+        sched["stall_max"] = min(sched["stall_max"], 0.15)      # hundreds of lines to read: keep the reader moving
     return {
         "lane": "c18", "sub": sub, "transport": transport, "via": r.choice(["delegate", "bare"]),
         "cfg": {"greeting": r.choice(["start", "", "start\necho:Marlin 2.1.2"]), "boot": r.choice([0.0, 0.05]),
@@ -227,7 +230,7 @@ def gen(seed, run, sub="pipe", tier="quick"):
                 "dev_eol": r.choice(["\n", "\n", "\r\n"])},
         "stmts": stmts, "replies": replies, "faults": faults, "ops": ops, "draws": draws, "eol": "\n",
         "readings": readings, "max_steps": 150000, "slow": slow,
-        "sched": common.gen_sched(r, "%s/%s/c18" % (seed, run), est_steps=300 + 250 * n),
+        "sched": sched,
     }
 
 
